@@ -64,7 +64,12 @@ Proof. exact compound_enforce_then_satisfies. Qed.
 Theorem C11_box_tree_enforce_then_satisfies : forall acosF sinF s x r,
   rv_tree s -> st_no_nan x -> enforce acosF sinF s x = Ok r -> satisfies acosF s r = Ok true.
 Proof. intros acosF sinF s x r Hs Hx. exact (rv_tree_law acosF sinF s Hs x r Hx). Qed.
+(* and the sampling half: component samples that pass their own check make a compound sample that passes *)
+Theorem C11_compound_sample_then_satisfies : forall acosF fuel subs,
+  Forall (fun sw => smp_sat_law acosF fuel (fst sw)) subs -> smp_sat_law acosF fuel (CS subs).
+Proof. exact compound_sample_then_satisfies. Qed.
 
+Print Assumptions C11_compound_sample_then_satisfies.
 Print Assumptions C11_compound_enforce_then_satisfies.
 Print Assumptions C11_box_tree_enforce_then_satisfies.
 Print Assumptions C11_clamp_in_range.
